@@ -47,6 +47,7 @@ struct rec {
 static struct episode {
 	int stop, check_phase, nslots;
 	int nthr, api_sc, frozen, fq, frozen_ok, chaos;
+	int fence_appends;	/* this episode: appends are followed by MFENCE before their return stamp (see the WOULDBLOCK oracle) */
 	int nops[MAXW];
 	uint32_t start_off[MAXW];
 	struct pop ops[MAXW][MAX_OPS_THR];
@@ -79,7 +80,7 @@ struct wthr {
 	int cur_frozen_phase;
 	uint64_t counter;		/* node ids */
 	/* evidence */
-	uint64_t checked, nontrivial, inconclusive, lin_nodes, max_lin_nodes, violations, wb_seen;
+	uint64_t checked, nontrivial, inconclusive, lin_nodes, max_lin_nodes, violations, wb_seen, wb_unjudged;
 	uint64_t ops_by_x[X_NR], res_wb, res_null, res_last, max_conc;
 	int samples;
 	char pad[64];
@@ -153,6 +154,8 @@ static void exec_op(struct wthr *w, const struct pop *p, struct rec *r)
 		cds_wfcq_node_init(&n->link.c);
 		r->call = ts_before();
 		bool ne = cds_wfcq_enqueue(wq_head(q), &q->tail, &n->link.c);
+		if (ep.fence_appends)
+			__asm__ __volatile__("mfence" ::: "memory");
 		r->ret = ts_after();
 		r->r = ne;
 		break;
@@ -213,6 +216,8 @@ static void exec_op(struct wthr *w, const struct pop *p, struct rec *r)
 			wq_unlock(s);
 		} else
 			ret = cds_wfcq_splice_blocking(&q->lh, &q->tail, &s->lh, &s->tail);
+		if (ep.fence_appends)
+			__asm__ __volatile__("mfence" ::: "memory");
 		r->ret = ts_after();
 		r->r = (uint32_t) ((int) ret + 1);
 		break;
@@ -223,6 +228,8 @@ static void exec_op(struct wthr *w, const struct pop *p, struct rec *r)
 		r->call = ts_before();
 		wq_lock(s);
 		ret = __cds_wfcq_splice_nonblocking(wq_head(q), &q->tail, wq_head(s), &s->tail);
+		if (ep.fence_appends)
+			__asm__ __volatile__("mfence" ::: "memory");
 		wq_unlock(s);
 		r->ret = ts_after();
 		r->r = (uint32_t) ((int) ret + 1);
@@ -327,6 +334,7 @@ static void plan_chaos(struct vp_rng *r)
 
 	vp_points_clear();
 	ep.chaos = 0;
+	ep.fence_appends = (int) vp_rand_n(r, 2);
 	if (!opt_chaos || x < 35)
 		return;
 	if (x < 70 || opt_chaos == 1) {
@@ -892,6 +900,15 @@ static void check_history(struct wthr *w, struct hist *h)
 		w->wb_seen++;
 		if (!vp_eps)
 			continue;
+		/* An append's last action is a plain store (old_tail->next = node) that may still sit in the enqueuer's
+		 * store buffer when its return stamp is taken: "returned" is not "visible" on x86-TSO, and a nonblocking
+		 * consumer may legitimately see WOULDBLOCK a little later (observed: 1 us).  The legitimacy of a
+		 * WOULDBLOCK is therefore judged only in episodes whose appends are followed by MFENCE before the
+		 * stamp; the other episodes keep the store buffer undisturbed for the linearizability oracle. */
+		if (!ep.fence_appends) {
+			w->wb_unjudged++;
+			continue;
+		}
 		for (int j = 0; j < n && !found; j++) {
 			const struct lin_op *e = &h->ops[j];
 			if ((e->kind == K_ENQ || e->kind == K_SPL_B_PUT || e->kind == K_SPL_NB_PUT) &&
@@ -1088,11 +1105,11 @@ static int run_episodes(void)
 		pthread_join(wthr[i].tid, NULL);
 	vp_watchdog_stop();
 
-	uint64_t checked = 0, nt = 0, inc = 0, nodes = 0, maxn = 0, wb = 0, rwb = 0, rnull = 0, conc = 0;
+	uint64_t checked = 0, nt = 0, inc = 0, nodes = 0, maxn = 0, wb = 0, wbu = 0, rwb = 0, rnull = 0, conc = 0;
 	for (int i = 0; i < nworkers; i++) {
 		struct wthr *w = &wthr[i];
 		checked += w->checked; nt += w->nontrivial; inc += w->inconclusive; nodes += w->lin_nodes;
-		wb += w->wb_seen; rwb += w->res_wb; rnull += w->res_null;
+		wb += w->wb_seen; rwb += w->res_wb; rnull += w->res_null; wbu += w->wb_unjudged;
 		if (w->max_lin_nodes > maxn)
 			maxn = w->max_lin_nodes;
 		if (w->max_conc > conc)
@@ -1116,6 +1133,7 @@ static int run_episodes(void)
 	vp_counter_set("lin_max_search_nodes", maxn);
 	vp_counter_set("lin_max_concurrency", conc);
 	vp_counter_add("wouldblock_ops_in_histories", wb);
+	vp_counter_add("wouldblock_ops_not_judged_for_legitimacy_unfenced_episode", wbu);
 	vp_counter_add("results_wouldblock", rwb);
 	vp_counter_add("results_null", rnull);
 	vp_counter_add("library_wait_sleeps", VP_LOAD(wfq_wait_sleeps));
